@@ -387,7 +387,9 @@ Definition compaction_guard (s : state) (c : compaction) : bool :=
   && newer_outside (level_entries (remove_files (level_files lv (S L)) (c_in1 c))) merged
   (* fresh output numbers *)
   && forallb (fresh_num s) (c_outs c) && strictly_increasing (c_outs c)
-  && forallb (fun n => n <? c_nf c) (c_outs c) && (next_file s <=? c_nf c).
+  && forallb (fun n => n <? c_nf c) (c_outs c) && (next_file s <=? c_nf c)
+  (* an output file is only opened when there is an entry to put into it *)
+  && forallb (fun n => (0 <? n)%nat) (c_cuts c).
 
 Definition do_compact (s : state) (c : compaction) : option state :=
   if compaction_guard s c then
